@@ -89,6 +89,7 @@
    witness. *)
 From Verif Require Import Common Json C08_Model C08_Spec C08_Proofs C08_MergeProofs.
 From Verif Require Import C08_Text C08_TextProofs.
+From Verif Require Import C08_WinProofs.
 
 Definition C08_full_statement : Prop :=
   forall jq types filter h, oracle_canonical jq h ->
@@ -663,3 +664,109 @@ Proof.
   intros s e Hin He. cbn [h_tp In] in Hin.
   destruct Hin as [<-|[<-|[<-|[]]]]; vm_compute in He; injection He as <-; vm_compute; reflexivity.
 Qed.
+
+(* ---- the window in which the binding's events are SAVED (monitor started, not yet unlocked):
+   eventCbEnabled / eventBuf, flapping histories (A -> B -> A -> B; create / delete / re-create) ---- *)
+
+Definition C08_full_statement_window : Prop :=
+  forall jq d filter listed (h1 h2 : list dstep),
+    exists c0, load_existed jq (mkConfig (effective_types d) filter) listed [] = Some c0 /\
+      let cfg := mkConfig (effective_types d) filter in
+      let rs := run_w jq cfg (mkW c0 false []) (window_ops h1 h2) in
+      let n := length h1 in
+      P_win_decl jq d filter listed
+                 (map change_of h1) (map w_to_obs (firstn n rs))
+                 (map ev_step (snd (nth n rs (mkW [] true [], []))))
+                 (map change_of h2) (map w_to_obs (skipn (S n) rs)) = true.
+
+(* the model of the window, for ALL configurations, caches and histories h1 (delivered while
+   the events are saved) and h2 (after the unlock): no delivery of the window hands anything to
+   the callback; the unlock hands over EXACTLY the events the deliveries of h1 fire when judged
+   one after the other against the cache ([run_d]: the last known projection) - one per passing
+   delivery, in delivery order, however often the same event occurred before - and leaves the
+   buffer empty; afterwards every fired event goes straight to the callback *)
+Theorem C08_window_unlock_hands_over_passing_deliveries : forall jq cfg c h1 h2,
+  run_w jq cfg (mkW c false []) (window_ops h1 h2)
+  = locked_steps [] (run_d jq cfg c h1)
+    ++ (mkW (final_cache_d jq cfg c h1) true [], fired (run_d jq cfg c h1))
+       :: map (enabled_step []) (run_d jq cfg (final_cache_d jq cfg c h1) h2).
+Proof. exact window_run. Qed.
+Print Assumptions C08_window_unlock_hands_over_passing_deliveries.
+
+Theorem C08_window_deliveries_are_silent : forall (rs : list (cache * option event)) buf,
+  Forall (fun r : wstate * list event => snd r = [] /\ w_enabled (fst r) = false) (locked_steps buf rs).
+Proof. exact locked_steps_silent. Qed.
+Print Assumptions C08_window_deliveries_are_silent.
+
+(* for ALL sequences of deliveries and unlocks (any number of unlocks, anywhere): what the
+   callback has got so far followed by what is still saved is the sequence of the events the
+   deliveries fire - nothing lost, nothing doubled, nothing reordered *)
+Theorem C08_window_nothing_lost : forall jq cfg ops w,
+  w_wf w ->
+  flat_map snd (run_w jq cfg w ops) ++ w_buf (final_w jq cfg w ops)
+  = w_buf w ++ fired (run_d jq cfg (w_cache w) (deliveries ops)).
+Proof. exact conservation. Qed.
+Print Assumptions C08_window_nothing_lost.
+
+(* a fired event carries the handler's type, the object's id and the delivered object *)
+Theorem C08_event_carries_the_change : forall jq cfg c t id o ev,
+  snd (handle jq cfg c t id o) = Some ev -> ev_step ev = (t, id, o).
+Proof. exact handle_event_shape. Qed.
+Print Assumptions C08_event_carries_the_change.
+
+(* the window clause of the specification for the model: every declared binding, every set of
+   objects that exist when it is enabled, every history in the window and every history after
+   it, outside the two findings: the triggers handed over by the unlock are exactly the changes
+   of the window that pass the rule (each judged against the last known projection at its place),
+   in order; the snapshots follow every change; after the unlock the property goes on *)
+Theorem C08_window_partial : forall jq d filter listed (h1 h2 : list dstep),
+  T_F8m jq filter (listed_steps listed ++ map change_of (h1 ++ h2)) = false ->
+  T_F16 jq filter (listed_steps listed ++ map change_of (h1 ++ h2)) = false ->
+  exists c0, load_existed jq (mkConfig (effective_types d) filter) listed [] = Some c0 /\
+    let cfg := mkConfig (effective_types d) filter in
+    let rs := run_w jq cfg (mkW c0 false []) (window_ops h1 h2) in
+    let n := length h1 in
+    P_win_decl jq d filter listed
+               (map change_of h1) (map w_to_obs (firstn n rs))
+               (map ev_step (snd (nth n rs (mkW [] true [], []))))
+               (map change_of h2) (map w_to_obs (skipn (S n) rs)) = true.
+Proof. exact window_partial. Qed.
+Print Assumptions C08_window_partial.
+
+(* non-vacuity: object 1 exists with replicas=3 and flaps 3 -> 4 -> 3 -> 4 inside the window (after
+   the informer's replay), object 2 is created, deleted and re-created with the same content; then
+   the unlock; then 1 flaps back once more.  With and without the filter: the hypotheses hold, the
+   model's unlock hands over all seven changes in order, and the specification REJECTS a hand-over
+   that keeps each (type, object, state) once ("the buffer already has this event"). *)
+Example C08_window_hyp_met :
+  let listed := [(1%N, o_rep 3)] in
+  let h1 := [(Added, 1%N, Plain (o_rep 3));
+             (Modified, 1%N, Plain (o_rep 4)); (Modified, 1%N, Plain (o_rep 3)); (Modified, 1%N, Plain (o_rep 4));
+             (Added, 2%N, Plain o_norep); (Deleted, 2%N, Plain o_norep); (Added, 2%N, Plain o_norep);
+             (Deleted, 2%N, Tombstone 2%N o_norep)] in
+  let h2 := [(Modified, 1%N, Plain (o_rep 3))] in
+  let d := mkDecl None None in
+  let flush := [(Modified, 1%N, o_rep 4); (Modified, 1%N, o_rep 3); (Modified, 1%N, o_rep 4);
+                (Added, 2%N, o_norep); (Deleted, 2%N, o_norep); (Added, 2%N, o_norep); (Deleted, 2%N, o_norep)] in
+  let dedup := [(Modified, 1%N, o_rep 4); (Modified, 1%N, o_rep 3);
+                (Added, 2%N, o_norep); (Deleted, 2%N, o_norep)] in
+  T_F8m jq_obj true (listed_steps listed ++ map change_of (h1 ++ h2)) = false /\
+  T_F16 jq_obj true (listed_steps listed ++ map change_of (h1 ++ h2)) = false /\
+  (forall filter,
+     let cfg := mkConfig (effective_types d) filter in
+     let c0 := [(1%N, match apply_filter jq_obj cfg (o_rep 3) with Some e => e | None => mkEntry JNull JNull None end)] in
+     let rs := run_w jq_obj cfg (mkW c0 false []) (window_ops h1 h2) in
+     load_existed jq_obj cfg listed [] = Some c0 /\
+     map ev_step (snd (nth 8 rs (mkW [] true [], []))) = flush /\
+     map (fun r => map ev_step (snd r)) (skipn 9 rs) = [[(Modified, 1%N, o_rep 3)]] /\
+     P_win_decl jq_obj d filter listed (map change_of h1) (map w_to_obs (firstn 8 rs)) flush
+                (map change_of h2) (map w_to_obs (skipn 9 rs)) = true /\
+     P_win_decl jq_obj d filter listed (map change_of h1) (map w_to_obs (firstn 8 rs)) dedup
+                (map change_of h2) (map w_to_obs (skipn 9 rs)) = false).
+Proof.
+  cbv zeta. split; [vm_compute; reflexivity|]. split; [vm_compute; reflexivity|].
+  intros filter; destruct filter; repeat split; vm_compute; reflexivity.
+Qed.
+
+Example C08_window_nothing_lost_hyp_met : w_wf (mkW [] false []) /\ w_wf (mkW [] true []).
+Proof. split; intros H; [discriminate|reflexivity]. Qed.
